@@ -184,8 +184,9 @@ def h_refused_assignment(ctx):
 
 
 def h_refuse_widths(ctx, w1, w2):
-    src = UnsignedByteField(ctx.int("src", 0, (1 << (8 * w1)) - 1), w1)
-    dst = UnsignedByteField(ctx.int("dst", 0, (1 << (8 * w2)) - 1), w2)
+    # width 0 is the placeholder field of PduConfig.empty(): against a real width on the other side it is unequal too
+    src = UnsignedByteField(ctx.int("src", 0, (1 << (8 * w1)) - 1), w1) if w1 else UnsignedByteField(0, 0)
+    dst = UnsignedByteField(ctx.int("dst", 0, (1 << (8 * w2)) - 1), w2) if w2 else UnsignedByteField(0, 0)
     conf = PduConfig(source_entity_id=src, dest_entity_id=dst, transaction_seq_num=UnsignedByteField(ctx.int("seq", 0, 255), 1),
                      trans_mode=ctx.flag("mode"))
     e, h = call(PduHeader, 0, 0, 0, conf)
@@ -196,6 +197,11 @@ def h_refuse_widths(ctx, w1, w2):
         if e is None:
             e2, _ = call(h.set_entity_ids, src, UnsignedByteField(0, 8 if w1 != 8 else 4))
             ctx.holds("set_entity_ids refuses unequal widths", isinstance(e2, ValueError), exc_name(e2))
+            e3, _ = call(h.set_entity_ids, src, UnsignedByteField(0, 0))
+            e4, _ = call(h.set_entity_ids, UnsignedByteField(0, 0), dst)
+            ctx.holds("set_entity_ids refuses a zero-width ID next to a real one", sym_and(isinstance(e3, ValueError),
+                                                                                         isinstance(e4, ValueError)), exc_name(e3 or e4))
+            ctx.holds("after the refusals the header still packs its IDs", h.pack()[4:4 + w1] == ctx.bytes_of(be(src.value, w1)))
 
 
 def cases(tier):
@@ -218,8 +224,10 @@ def cases(tier):
         for w in tier_pick(tier, ((2, 1), (4, 8)), ((1, 1), (2, 1), (4, 8), (8, 4))):
             cs.append(Case("setters-order%d-w%d%d" % (k, w[0], w[1]), "setters", h_setters, dict(order=order, idw2=w[0], seqw2=w[1]),
                            bounds="all old and new field values, assignment order %s, new widths %d/%d" % (",".join(order), w[0], w[1])))
-    for w1 in (1, 2, 4, 8):
-        for w2 in (1, 2, 4, 8):
+    for w1 in (0, 1, 2, 4, 8):
+        for w2 in (0, 1, 2, 4, 8):
+            if w1 == w2 == 0:
+                continue
             cs.append(Case("refuse-widths-%d-%d" % (w1, w2), "refuse", h_refuse_widths, dict(w1=w1, w2=w2),
                            bounds="source width %d, destination width %d, all values" % (w1, w2)))
     return cs
